@@ -4,6 +4,7 @@
 // SFINAE guard is too narrow so the converting copy assignment is chosen), the region no longer compiles.
 #include <limits>
 #include <string>
+#include <type_traits>
 #include <utility>
 
 #include <nop/table.h>
@@ -79,6 +80,27 @@ inline void VariantMoves() {
   (void)c;
 }
 // END variant_move_assign_and_construct
+
+// Assigning EmptyVariant empties the Variant - also when an alternative could be constructed from anything (an "any"/JSON-like
+// value type).  If overload resolution preferred the converting operator=(T&&) for an rvalue tag, Any's constructor template
+// would be instantiated with EmptyVariant and the static_assert in its body would fire.
+struct Any {
+  Any() = default;
+  template <typename T, typename = std::enable_if_t<!std::is_same<std::decay_t<T>, Any>::value>>
+  Any(T&&) {
+    static_assert(!std::is_same<std::decay_t<T>, nop::EmptyVariant>::value,
+                  "EmptyVariant was converted into an element instead of emptying the Variant");
+  }
+};
+// MUSTCOMPILE variant_empty_assignment_is_not_a_conversion
+inline void VariantEmptyAssign() {
+  nop::Variant<int, Any> v{Any{}};
+  v = nop::EmptyVariant{};
+  nop::EmptyVariant tag;
+  v = std::move(tag);
+  v = tag;
+}
+// END variant_empty_assignment_is_not_a_conversion
 
 // MUSTFAIL optional_copy_of_move_only
 inline void OptionalCopy() {
